@@ -1,9 +1,7 @@
 import FlVerif.Op.PyExtFunction
 import FlVerif.Op.FunctionTerm
-import FlVerif.Op.Fld
 
-/-! # Externals of the translated `Function.Node.evaluate`, `Function.evaluate`, `Function.membership` (term.py) and of
-    the reader / header / write functions of `FldExporter` (exporter.py)
+/-! # Externals of the translated `Function.Node.evaluate`, `Function.evaluate`, `Function.membership` (term.py)
 
 Values (`Scalar`: floats or NumPy arrays) are an arbitrary type `V`; `const : X Rat → V` is the scalar of a float
 (`scalar(nan)`, the constant of a node).  A Python `dict` that is built by item assignments and `update` is kept as
@@ -11,10 +9,15 @@ the list of its assignments in order; a look-up takes the *last* binding of the 
 
 namespace Py.FunEval
 
+mutual
 /-- nesting depth of a `Function.Node` tree (the bound for the recursion of `Node.evaluate`) -/
 def height : Py.Node → Nat
-  | ⟨_, _, _, l, r⟩ =>
-    (max (match l with | none => 0 | some n => height n) (match r with | none => 0 | some n => height n)) + 1
+  | ⟨_, _, _, l, r⟩ => max (heightO l) (heightO r) + 1
+/-- the same for a child that may be absent -/
+def heightO : Option Py.Node → Nat
+  | none => 0
+  | some n => height n
+end
 
 /-- truth value of `local_variables : dict | None` (`None` and the empty dictionary are false) -/
 def dictTruthy {β : Type} (d : Option (List (String × β))) : Bool :=
@@ -39,11 +42,3 @@ def keysInter {β : Type} (a b : List (String × β)) : List String :=
   (a.filter (fun kv => dictHas b kv.1)).map (·.1)
 
 end Py.FunEval
-
-namespace Py.Fld
-
-/-- `line[0] == "#"`: `IndexError` for the empty string -/
-def startsHash (s : String) : Py.M Bool :=
-  if s.isEmpty then .error .lookup else .ok (s.front == '#')
-
-end Py.Fld
